@@ -1010,3 +1010,72 @@ def floatness(e):
     if isinstance(e, ast.Attribute) and e.attr == "T":
         return floatness(e.value)
     return False
+
+
+def call_paths(fn, is_event, opaque=()):
+    """[(condition literals, [event texts in order], exit kind)] over all paths through the function's if-structure (loops / try bodies
+    are walked once, straight through); an event is a call node accepted by `is_event`.  Locals used in conditions are followed
+    symbolically (flags), contradictory paths are dropped."""
+    out = []
+
+    def events_in(st):
+        return [ast.unparse(c) for c in ast.walk(st) if isinstance(c, ast.Call) and is_event(c)]
+
+    def block(stmts, env, conds, evs):
+        live = [(env, conds, evs)]
+        for s in stmts:
+            nxt = []
+            for env, conds, evs in live:
+                if isinstance(s, ast.Return):
+                    out.append((frozenset(conds), evs + events_in(s), "return"))
+                elif isinstance(s, ast.Raise):
+                    out.append((frozenset(conds), evs + events_in(s), "raise"))
+                elif isinstance(s, ast.If):
+                    test = _sym_subst(s.test, env)
+                    e2 = evs + [ast.unparse(c) for c in ast.walk(s.test) if isinstance(c, ast.Call) and is_event(c)]
+                    for arm, pos in ((s.body, True), (s.orelse, False)):
+                        atoms = _cond_atoms(test, pos)
+                        if any(negation_text(a_) in conds for a_ in atoms):
+                            continue
+                        nxt += block(arm, dict(env), conds + [a_ for a_ in atoms if a_ not in conds], list(e2))
+                elif isinstance(s, (ast.For, ast.While, ast.With, ast.Try)):
+                    e_ = dict(env)
+                    _sym_kill(s, e_)
+                    nxt.append((e_, conds, evs + events_in(s)))
+                else:
+                    e_ = dict(env)
+                    _sym_block([s], e_, None)
+                    nxt.append((e_, conds, evs + events_in(s)))
+            live = nxt
+        return live
+
+    for env, conds, evs in block(fn.body, {"\0opaque": frozenset(opaque)} if opaque else {}, [], []):
+        out.append((frozenset(conds), evs, "fall"))
+    return out
+
+
+def merge_cases(table):
+    """Decision table normal form: two rows with the same value whose condition sets differ in exactly one literal and its negation
+    are one row without that literal ({A, C} -> v and {not A, C} -> v  ==  {C} -> v); repeated to a fixpoint.  Makes the table independent
+    of the nesting order of the tests."""
+    rows = [(frozenset(c), v) for c, v in table]
+    changed = True
+    while changed:
+        changed = False
+        for i in range(len(rows)):
+            for j in range(i + 1, len(rows)):
+                (c1, v1), (c2, v2) = rows[i], rows[j]
+                if v1 != v2:
+                    continue
+                d1, d2 = c1 - c2, c2 - c1
+                if len(d1) == 1 and len(d2) == 1 and negation_text(next(iter(d1))) == next(iter(d2)):
+                    rows = [r for k, r in enumerate(rows) if k not in (i, j)] + [(c1 & c2, v1)]
+                    changed = True
+                    break
+                if c1 == c2:
+                    rows = [r for k, r in enumerate(rows) if k != j]
+                    changed = True
+                    break
+            if changed:
+                break
+    return sorted(rows, key=lambda x: (sorted(x[0]), x[1]))
